@@ -261,13 +261,16 @@ def parse_race_log(text):
 class Job:
     def __init__(self, name, pkg, run, race=False, asan=False, env=None, shards=(1, 1),
                  timeout=(900, 3600), tiers=("quick", "thorough"), extra_tags=None, ulimit_v=None,
-                 gomaxprocs=None):
+                 gomaxprocs=None, race_is_violation=True):
         self.name, self.pkg, self.run, self.race, self.asan = name, pkg, run, race, asan
         self.env = env or {}
         self.shards, self.timeout, self.tiers = shards, timeout, tiers
         self.extra_tags = extra_tags
         self.ulimit_v = ulimit_v
         self.gomaxprocs = gomaxprocs
+        # False: data race reports of this job are recorded as diagnostics only (the property does not
+        # speak about races; the -race build is used for checkptr and crash detection)
+        self.race_is_violation = race_is_violation
 
 
 def run_check(pid, spec, tier, seed, replay=None, keep=False):
@@ -391,17 +394,21 @@ def run_check(pid, spec, tier, seed, replay=None, keep=False):
                 agg["distinct"].add(l.strip())
         if j.race:
             nrep = 0
+            found = []
             for fn in sorted(os.listdir(outdir)):
                 if fn.startswith("race-%s." % jn):
-                    for sig, txt in parse_race_log(open(os.path.join(outdir, fn), errors="replace").read()):
-                        nrep += 1
-                        agg["violations"].append({"sig": sig, "desc": "data race reported by the Go race detector",
-                                                  "job": jn, "replay": {"report": txt}})
+                    found += parse_race_log(open(os.path.join(outdir, fn), errors="replace").read())
             # reports printed to stderr (log_path unset or failed)
-            for sig, txt in parse_race_log(logtxt):
+            found += parse_race_log(logtxt)
+            for sig, txt in found:
                 nrep += 1
-                agg["violations"].append({"sig": sig, "desc": "data race reported by the Go race detector",
-                                          "job": jn, "replay": {"report": txt}})
+                if j.race_is_violation:
+                    agg["violations"].append({"sig": sig, "desc": "data race reported by the Go race detector",
+                                              "job": jn, "replay": {"report": txt}})
+                else:
+                    agg["info"].setdefault("race_reports_diagnostic_only", {})
+                    d = agg["info"]["race_reports_diagnostic_only"]
+                    d[sig] = d.get(sig, 0) + 1
             agg["counters"]["race_reports"] = agg["counters"].get("race_reports", 0) + nrep
             agg["counters"]["race_detector_runs"] = agg["counters"].get("race_detector_runs", 0) + 1
         notes.append("%s: exit %d in %.0fs" % (jn, rc, dt))
